@@ -56,6 +56,8 @@ class _Injector(object):
         self.log.append(what)
         if self.crash_at is not None and k == self.crash_at and not self.fired:
             self.fired = True
+            if self.kind == "corrupt":
+                return True          # the wrapped step goes on and its result is damaged by the caller (silent data corruption of one write)
             self.active = False
             if self.kind == "error":
                 raise InjectedError(errno.ENOSPC, "injected I/O error at point %d: %s" % (k, what))
@@ -110,16 +112,21 @@ class watch(object):
         INJ.crash_at = self.crash_at
         INJ.kind = self.kind
         INJ.fired = False
-        for obj, name, label in self.steps:
+        for step in self.steps:
+            obj, name, label = step[:3]
+            corrupt = step[3] if len(step) > 3 else None
             if not hasattr(obj, name):
                 continue
             orig = getattr(obj, name)
             self.saved.append((obj, name, orig))
 
-            def make(orig=orig, label=label):
+            def make(orig=orig, label=label, corrupt=corrupt):
                 def wrapped(*a, **k):
-                    INJ.point("step:%s" % label)
-                    return orig(*a, **k)
+                    fire = INJ.point("step:%s" % label)
+                    r = orig(*a, **k)
+                    if fire and corrupt is not None:
+                        r = corrupt(r)
+                    return r
                 return wrapped
             setattr(obj, name, make())
         INJ.active = True
